@@ -4,6 +4,7 @@ package rig
 import (
 	"context"
 	"fmt"
+	"golang.org/x/time/rate"
 	"runtime/debug"
 	"time"
 
@@ -24,13 +25,20 @@ type Parser struct {
 	panicCh chan interface{}
 }
 
+// ParserBadLineRate and ParserLogRawMetric are the parser's two logging options (bad-line rate limit, 0 = off; raw-metric
+// logging) for the parsers NewParser builds; tests draw them. Neither may change what is parsed.
+var (
+	ParserBadLineRate  rate.Limit
+	ParserLogRawMetric bool
+)
+
 func NewParser(ns string, ignoreHost bool, estimatedTags int, handler gostatsd.PipelineHandler) *Parser {
 	r := &Parser{In: make(chan []*statsd.Datagram), St: fakes.NewStatser(), panicCh: make(chan interface{}, 2)}
 	if handler == nil {
 		r.Sink = fakes.NewSink()
 		handler = r.Sink
 	}
-	dp := statsd.NewDatagramParser(r.In, ns, ignoreHost, estimatedTags, handler, 0, false, logrus.StandardLogger())
+	dp := statsd.NewDatagramParser(r.In, ns, ignoreHost, estimatedTags, handler, ParserBadLineRate, ParserLogRawMetric, logrus.StandardLogger())
 	ctx, cancel := context.WithCancel(stats.NewContext(context.Background(), r.St))
 	r.Cancel = cancel
 	go func() {
